@@ -7,7 +7,7 @@
    (ball), u = 2^-prec: the returned point lies within 1 + 3u of the origin.  Statement only; proofs in Proofs/UnitNormFl.v.        *)
 From Coq Require Import ZArith Bool Reals.
 From Flocq Require Import Core.Core IEEE754.BinarySingleNaN.
-From RD Require Import Proofs.AffineFl Proofs.UnitNormFl Gen.FlProg.
+From RD Require Import Proofs.FlConst Proofs.AffineFl Proofs.UnitNormFl Proofs.UnitSphereFl Gen.FlProg.
 Open Scope R_scope.
 
 Theorem C12_accept_fl_def : forall prec emax (Hp : Prec_gt_0 prec) (Hpe : Prec_lt_emax prec emax) (x1 x2 x3 : binary_float prec emax),
@@ -64,6 +64,35 @@ Theorem C12_fl_source : forall prec emax (Hp : Prec_gt_0 prec) (Hpe : Prec_lt_em
   src_unit_ball_accept prec emax Hp Hpe x1 x2 x3 = ball_accept_fl prec emax Hp Hpe x1 x2 x3.
 Proof. intros. split; reflexivity. Qed.
 
+(* ---- UnitSphere (unit_sphere.rs:52-63) is libm-free too: sum, the rejection test, factor = 2 sqrt(1 - sum) and the three returned
+   components, each read off /repo on every run, are the hand-written programs; 2 is the float 1 + 1 (Proofs/FlConst.v: B2R Btwo = 2). *)
+Theorem C12_sphere_fl_source : forall prec emax (Hp : Prec_gt_0 prec) (Hpe : Prec_lt_emax prec emax) (x1 x2 s f : binary_float prec emax),
+  src_unit_sphere_sum prec emax Hp Hpe x1 x2 = disc_sum_fl prec emax Hp Hpe x1 x2 /\
+  src_unit_sphere_reject prec emax Hp Hpe s = sphere_reject_fl prec emax Hp Hpe s /\
+  src_unit_sphere_factor prec emax Hp Hpe s = sphere_factor_fl prec emax Hp Hpe s /\
+  src_unit_sphere_x prec emax Hp Hpe x1 f = sphere_xy_fl prec emax Hp Hpe x1 f /\
+  src_unit_sphere_y prec emax Hp Hpe x2 f = sphere_xy_fl prec emax Hp Hpe x2 f /\
+  src_unit_sphere_z prec emax Hp Hpe s = sphere_z_fl prec emax Hp Hpe s.
+Proof. intros. repeat split; reflexivity. Qed.
+
+Theorem C12_Btwo_correct : forall prec emax (Hp : Prec_gt_0 prec) (Hpe : Prec_lt_emax prec emax),
+  B2R (Btwo prec emax Hp Hpe) = 2 /\ is_finite (Btwo prec emax Hp Hpe) = true.
+Proof. exact Btwo_correct. Qed.
+
+(* For finite x1, x2 in [-1, 1] whose float sum is not rejected: no overflow, the square root is taken of a number in [0, 1], all three
+   components are finite floats (never NaN), the third in [-1, 1] exactly, the first two in [-2, 2], the factor in [0, 2]. *)
+Theorem C12_sphere_fl_finite : forall prec emax (Hp : Prec_gt_0 prec) (Hpe : Prec_lt_emax prec emax),
+  (prec + 3 <= emax)%Z -> (3 <= prec)%Z -> forall x1 x2 : binary_float prec emax,
+  is_finite x1 = true -> is_finite x2 = true -> Rabs (B2R x1) <= 1 -> Rabs (B2R x2) <= 1 ->
+  sphere_reject_fl prec emax Hp Hpe (disc_sum_fl prec emax Hp Hpe x1 x2) = false ->
+  let s := disc_sum_fl prec emax Hp Hpe x1 x2 in
+  let f := sphere_factor_fl prec emax Hp Hpe s in
+  is_finite (sphere_xy_fl prec emax Hp Hpe x1 f) = true /\ is_finite (sphere_xy_fl prec emax Hp Hpe x2 f) = true /\
+  is_finite (sphere_z_fl prec emax Hp Hpe s) = true /\
+  Rabs (B2R (sphere_xy_fl prec emax Hp Hpe x1 f)) <= 2 /\ Rabs (B2R (sphere_xy_fl prec emax Hp Hpe x2 f)) <= 2 /\
+  Rabs (B2R (sphere_z_fl prec emax Hp Hpe s)) <= 1 /\ 0 <= B2R f <= 2.
+Proof. exact sphere_fl_finite. Qed.
+
 (* non-vacuity: binary64 and binary32 meet the format hypotheses *)
 Example C12_fl_binary64 : forall x1 x2 : binary_float 53 1024,
   is_finite x1 = true -> is_finite x2 = true -> Rabs (B2R x1) <= 1 -> Rabs (B2R x2) <= 1 ->
@@ -82,3 +111,6 @@ Print Assumptions C12_disc_sum_fl_value.
 Print Assumptions C12_disc_accept_fl_complete.
 Print Assumptions C12_ball_accept_fl_complete.
 Print Assumptions C12_fl_source.
+Print Assumptions C12_sphere_fl_source.
+Print Assumptions C12_Btwo_correct.
+Print Assumptions C12_sphere_fl_finite.
